@@ -3,39 +3,27 @@
 package tsm1
 
 // Re-exports for the C39 schedule check (/verif/h/c39). The check's "compaction" and "cache snapshot"
-// threads stand for ONE tick of the engine's own background goroutines (Engine.compact /
-// Engine.compactCache): like those goroutines they are counted in e.wg / e.snapWG for the duration of
-// the tick (so disableLevelCompactions / disableSnapshotCompactions wait for them exactly as they wait
-// for the real goroutines), and they start compactions through the same compact* methods with the
-// engine's own WaitGroup. Thin wrappers only: no logic.
+// threads stand for goroutines of the engine's own background machinery (the compaction goroutine that
+// Engine.compact starts for a planned group; one tick of Engine.compactCache): like those goroutines they
+// are counted in e.wg / e.snapWG while they run, so disableLevelCompactions / disableSnapshotCompactions
+// wait for them exactly as they wait for the real goroutines. The compaction itself runs through
+// VerifApplyLevelCompaction / VerifApplyFullCompaction (export_verif_c02.go). Thin wrappers only: no logic.
 
-// VerifLevelTickBegin counts the caller in the level-compaction WaitGroup (what enableLevelCompactions
-// does for the Engine.compact goroutine). Call while level compactions are enabled.
-func (e *Engine) VerifLevelTickBegin() { e.wg.Add(1) }
-
-// VerifLevelTickEnd is the matching wg.Done().
-func (e *Engine) VerifLevelTickEnd() { e.wg.Done() }
+// VerifLevelTickBegin counts the caller in the level-compaction WaitGroup (what Engine.compact* does
+// with wg.Add(1) before starting a compaction goroutine) and returns the matching wg.Done. Call while
+// level compactions are enabled.
+func (e *Engine) VerifLevelTickBegin() (done func()) {
+	wg := e.wg
+	wg.Add(1)
+	return wg.Done
+}
 
 // VerifSnapTickBegin counts the caller in the snapshot-compaction WaitGroup (what
-// enableSnapshotCompactions does for the Engine.compactCache goroutine).
-func (e *Engine) VerifSnapTickBegin() { e.snapWG.Add(1) }
-
-// VerifSnapTickEnd is the matching snapWG.Done().
-func (e *Engine) VerifSnapTickEnd() { e.snapWG.Done() }
-
-// VerifCompactHiPriorityLevel is Engine.compact's call for a planned level 1/2 group.
-func (e *Engine) VerifCompactHiPriorityLevel(grp CompactionGroup, level int, fast bool) bool {
-	return e.compactHiPriorityLevel(grp, level, fast, e.wg)
-}
-
-// VerifCompactLoPriorityLevel is Engine.compact's call for a planned level 3 group.
-func (e *Engine) VerifCompactLoPriorityLevel(grp CompactionGroup, level int, fast bool) bool {
-	return e.compactLoPriorityLevel(grp, level, fast, e.wg)
-}
-
-// VerifCompactFull is Engine.compact's call for a planned full (level 4) group.
-func (e *Engine) VerifCompactFull(grp CompactionGroup) bool {
-	return e.compactFull(grp, e.wg)
+// enableSnapshotCompactions does for the Engine.compactCache goroutine) and returns the matching wg.Done.
+func (e *Engine) VerifSnapTickBegin() (done func()) {
+	wg := e.snapWG
+	wg.Add(1)
+	return wg.Done
 }
 
 // VerifLevelCompactionsRunning reports whether the Engine.compact goroutine is (still) started.
